@@ -1,7 +1,7 @@
 """C08 -- an insecure shared $topdir/.Trash is never used, for writing, reading or purging."""
 from .common import *  # noqa
 from .readroles import *  # noqa
-from .putroles import PutRoles, is_left_test
+from .putroles import PutRoles, is_left_test, success_tested_before, candidate_sites
 from .c20 import dir_kind
 
 EXPLANATION = (
@@ -21,6 +21,11 @@ ASSUMPTIONS = ['A4 no change of $topdir/.Trash between check and use',
 MINIMUM = {'R08.1': 6, 'R08.3': 2, 'R08.4': 2}
 FACTS = ('isdir', 'notlink', 'sticky')
 
+
+# rules of sibling properties that are necessary conditions of this one too
+# (evaluated by the sibling module on the same graphs, reported under this property)
+ALSO = {'C16': {'R16.4': 'the security verdict is established per use, not remembered across '
+                  'arguments'}}
 
 def facts_of(b, cond, pol, parent_ids):
     """Facts about the directory with the given ids implied by (cond, pol)."""
@@ -143,11 +148,9 @@ def check(ctx):
     r = PutRoles(ctx)
     b, g = r.b, r.g
     cand_paths = []
-    for n in b.nodes('append'):
-        for a in flat(n.data['value']):
-            if isinstance(a, Obj) and 'trash_dir_path' in a.fields and \
-                    dir_kind(a.fields['trash_dir_path']) == '$topdir/.Trash/$uid':
-                cand_paths.append(a)
+    for n, a in candidate_sites(b):
+        if dir_kind(a.fields['trash_dir_path']) == '$topdir/.Trash/$uid':
+            cand_paths.append(a)
     ctx.require(cand_paths, 'R08.3: put has no $topdir/.Trash/$uid candidate')
     for cand in cand_paths:
         ct = strip(cand.fields.get('check_type', NONE))
@@ -162,13 +165,17 @@ def check(ctx):
     # alternatives of the security check that are not produced under "no check"
     fn = fact_nodes(b, set(pids) | all_candidate_parent_ids(b))
     effects = r.mkdirs + r.opens + r.moves
+    cache = {}
     for e in effects:
         ok = False
         detail = 'no Either result of a security check is tested before it'
-        for c, pol, n in guards(b, e.id):
-            x = is_left_test(unwrap_not(c, pol)[0])
-            if x is None or unwrap_not(c, pol)[1]:
-                continue
+        if not any(dir_kind(c_.fields['trash_dir_path']) == '$topdir/.Trash/$uid'
+                   for c_ in r.candidates_for(e.id)):
+            ctx.ob('R08.3', 'put: this copy of the effect never runs for the shared top '
+                            'trash directory', True, node=e)
+            continue
+        for rt in success_tested_before(b, r, e, cache):
+            x = rt.data['value']
             rights = [a for a in flat(x) if isinstance(a, Obj) and a.cls.name == 'Right']
             sites = [a.site for a in rights if a.site is not None]
             if not sites:
@@ -180,7 +187,8 @@ def check(ctx):
                     any(isinstance(strip(z), EnumVal) and strip(z).name == 'NoCheck'
                         for z in (unwrap_not(cc, pp)[0].left, unwrap_not(cc, pp)[0].right))
                     for cc, pp, aa in guards(b, s))
-                have = [f for f in FACTS if any(g.dominates(x_, s) for x_ in fn[f])]
+                have = [f for f in FACTS if any(g.dominates(x_, s) for x_ in fn[f]) or
+                        (fn[f] and cut_c(b, r.arg_iteration, s, fn[f]))]
                 verdicts.append('nocheck' if nocheck else
                                 ('facts' if len(have) == 3 else 'missing:%s' % sorted(
                                     set(FACTS) - set(have))))
@@ -226,11 +234,9 @@ def check(ctx):
 
 def all_candidate_parent_ids(b):
     ids = set()
-    for n in b.nodes('append'):
-        for a in flat(n.data['value']):
-            if isinstance(a, Obj) and 'trash_dir_path' in a.fields:
-                for d in flat(a.fields['trash_dir_path']):
-                    ids.add(cid(Call('os.path.dirname', (d,), (), None)))
+    for n, a in candidate_sites(b):
+        for d in flat(a.fields['trash_dir_path']):
+            ids.add(cid(Call('os.path.dirname', (d,), (), None)))
     # the merged candidate's parent_dir() term
     for n in b.nodes('ret'):
         f = n.data.get('func')
